@@ -16,6 +16,9 @@ void CanSettingChanged::read(AbstractFile & is) {
     is.read(reinterpret_cast<char *>(&channel), sizeof(channel));
     is.read(reinterpret_cast<char *>(&changedType), sizeof(changedType));
     bitTimings.read(is);
+    // @note reservedCanFdExtFrameData is read here as CanFdExtFrameData doesn't know the objectSize
+    bitTimings.reservedCanFdExtFrameData.resize(objectSize > calculateObjectSize() ? objectSize - calculateObjectSize() : 0);
+    is.read(reinterpret_cast<char *>(bitTimings.reservedCanFdExtFrameData.data()), static_cast<std::streamsize>(bitTimings.reservedCanFdExtFrameData.size()));
 }
 
 void CanSettingChanged::write(AbstractFile & os) {
